@@ -27,6 +27,14 @@ Error dtype       the binary symplectic vector is also passed as bool, int64 and
                   weight <= 1 on every other code; one Metropolis sub-case starts from a bool previous error.
                   Same oracle.  A dtype the implementation refuses with an exception is counted, not reported.
 
+Normalisation beyond n <= 6 (every class, every deformation name/axis it offers; independent of get_deformation):
+                  part 'sum8': plain-form sum over ALL 4^n errors == 1 on the smallest member with 6 < n <= 8 of
+                  every class that has one; every enum/lowweight case: per-qubit marginal normalisation
+                  P(I..I) + P(X_i) + P(Y_i) + P(Z_i) == (1-p)^(n-1) for every qubit i (with the product form,
+                  checked at weight <= 2, this is sum-to-one for any n); sampling (largest p of the case): per qubit a grid of 10
+                  interior variates is fed to generate (other qubits: identity) and the error it produces must have
+                  error_probability > 0 (variates within 1e-9 of a cumulative boundary are skipped).
+
 Reference channel (written from the definition, shares nothing with error_probability):
 (p_I, p_X, p_Y, p_Z)_undeformed = (1-p, p r_x, p r_y, p r_z) on every qubit; with a noise-side
 deformation D_i = code.get_deformation(coordinate_i, name, **kwargs):  p_def[sigma][i] = p_undef[D_i(sigma)].
@@ -93,6 +101,8 @@ BOUNDS = {
         'dtype': 'bool/int64/float64: all errors on n = 4 codes x (.2,.3,.5),(.6,.1,.3),(.5,0,.5) x all deformations '
                  'x p; weight <= 1 on all other codes x (.2,.3,.5) x p = 0.1 x deformation None/first; Metropolis '
                  'from bool previous errors of weight <= 1 on n = 4 codes',
+        'sum8': 'smallest member with 6 < n <= 8 of every class that has one (7 classes) x every deformation x '
+                '(.2,.3,.5) x p = 0.1: all 4^n errors, plain form',
         'large-n': 'Toric2DCode(24,24) n=1152, RotatedPlanar2DCode(33,33) n=1089: 4 errors x p in {0.3,0.4} x '
                    '(1/3,1/3,1/3),(.2,.3,.5) x deformation None/XZZX',
         'p': PS,
@@ -106,6 +116,7 @@ BOUNDS = {
                       'denominator 2 + (1/3,1/3,1/3) + (.2,.3,.5); accepted branch: previous error of weight <= 1 (n = 4) / '
                       'identity (n = 5, 6), p = 0.1, zero-correction and perfect stub decoder',
         'dtype': 'as quick',
+        'sum8': 'as quick with directions (.2,.3,.5),(.6,.1,.3),(1/3,1/3,1/3) x p in {0.1, 0.5}',
         'large-n': 'as quick plus Toric2DCode(20,29) n=1160 and Planar2DCode(24,24) n=1105',
         'p': PS,
     },
@@ -280,6 +291,17 @@ def cases(tier, seed):
         for d in _defs(name)[:2]:
             out.append({'part': 'lowweight', 'cls': name, 'size': size, 'deformation': d, 'dirs': [GENERIC],
                         'ps': [0.1], 'errors': 'w1', 'dtypes': dts, 'cost': (1 + 3 * n) * 0.5, 'n': n})
+    # ---- part sum8: complete normalisation sums on codes with 6 < n <= 8
+    sdirs = [GENERIC] if tier == 'quick' else [GENERIC, [6, 1, 3, 10], THIRD]
+    sps = [0.1] if tier == 'quick' else [0.1, 0.5]
+    for name, size, n, es in large_codes(tier):
+        if n > 8 or any(c['part'] == 'sum8' and c['cls'] == name for c in out):
+            continue
+        for d in _defs(name):
+            for dr in sdirs:
+                for p in sps:
+                    out.append({'part': 'sum8', 'cls': name, 'size': size, 'deformation': d, 'dirs': [dr],
+                                'ps': [p], 'cost': 4 ** n, 'n': n})
     # ---- part large-n (product underflows, log form must not)
     for name, size in LARGE_N[tier]:
         for d in (None, ['XZZX', {}]):
@@ -287,7 +309,7 @@ def cases(tier, seed):
                         'ps': [0.3, 0.4], 'cost': 1e9 + size[0] * size[1], 'n': 1000})
     # simplest first: small codes before large ones; within a code undeformed noise first, then
     # enum < lowweight < metropolis, then the cheaper chunk
-    order = {'enum': 0, 'lowweight': 1, 'metropolis': 2, 'large-n': 3}
+    order = {'enum': 0, 'lowweight': 1, 'metropolis': 2, 'large-n': 3, 'sum8': 4}
     out.sort(key=lambda c: (c['n'] > 6, c['n'] if c['n'] <= 6 else 0, c['cost'] if c['n'] > 6 else 0,
                             F.CLASSES.index(c['cls']), c['size'],
                             c['deformation'] is not None, order[c['part']], c['cost']))
@@ -465,6 +487,16 @@ def _eval_errors(case):
     res = {'evals': 0, 'nontrivial': 0, 'violations': rec.v, 'outcomes': [], 'samples': []}
     ex = {'errors_checked': 0, 'zero_probability_errors': 0, 'sampling_scripts_replayed': 0,
           'normalisation_sums': 0}
+    ident = None
+    single = {}
+    for k, sig in enumerate(sigs):
+        nzp = [i for i, t in enumerate(sig) if t]
+        if not nzp:
+            ident = k
+        elif len(nzp) == 1:
+            single[(nzp[0], sig[nzp[0]])] = k
+    ex['qubit_marginal_sums'] = 0
+    ex['variate_grid_probes'] = 0
     dtypes = case.get('dtypes', ['uint8'])
     vecs_by_dt = {dt: (vecs_u8 if dt == 'uint8' else [v.astype(dt) for v in vecs_u8]) for dt in dtypes}
     refused = set()
@@ -547,6 +579,49 @@ def _eval_errors(case):
                         rec.add('sampling-mass-differs', hid, ryp,
                                 {'error': _pstr(sig), 'direction': list(r), 'p': p, 'error_probability': got,
                                  'variate_mass_of_generating_script': 0.0}, dtype=dt)
+            # ---- per-qubit marginal normalisation, from the implementation's own values
+            if ident is not None and len(single) == 3 * n:
+                for i in range(n):
+                    ex['qubit_marginal_sums'] += 1
+                    vals = [total[ident]] + [total[single[(i, t)]] for t in (1, 2, 3)]
+                    want = (1.0 - p) ** (n - 1)
+                    if not abs(math.fsum(vals) - want) <= TOL_REL * want:
+                        rec.add('not-normalised', True, ryp,
+                                {'reason': 'P(identity) + P(X_i) + P(Y_i) + P(Z_i) differs from (1-p)^(n-1)',
+                                 'qubit': i, 'coordinate': str(code.qubit_coordinates[i]), 'direction': list(r),
+                                 'p': p, 'values_I_X_Y_Z': vals, 'sum': math.fsum(vals), 'expected': want},
+                                dtype=dt, scope='qubit-marginal')
+                        break
+            # ---- every error generate can produce from an interior variate has positive probability
+            if dt == 'uint8' and p < 1 and p == max(case['ps']):      # gaps scale with p: largest rate of the case
+                base_u = 0.0137 * (1.0 - p)                     # inside the identity interval [0, 1-p)
+                for i in range(n):
+                    cuts = [0.0]
+                    for perm4 in itertools.permutations(ch[i]):
+                        acc = 0.0
+                        for c in perm4:
+                            acc += c
+                            cuts.append(acc)
+                    for kk in range(10):
+                        u = 0.0137 + kk / 10.0
+                        if any(abs(u - c) < 1e-9 for c in cuts):
+                            continue
+                        script = [base_u] * n
+                        script[i] = u
+                        rng = ScriptedRNG(script)
+                        out = em.generate(code, p, rng=rng)
+                        with np.errstate(divide='ignore', invalid='ignore'):
+                            pg = float(em.error_probability(out, code, p))
+                        res['evals'] += 2
+                        ex['variate_grid_probes'] += 1
+                        if not pg > 0.0:
+                            rec.add('sampling-mass-differs', True, ryp,
+                                    {'reason': 'generate produces this error from an interior variate but '
+                                               'error_probability gives it probability zero',
+                                     'qubit': i, 'variate': u, 'generated': _pstr(_sig_of(out, n)),
+                                     'error_probability': pg, 'direction': list(r), 'p': p},
+                                    dtype=dt, scope='generated-error-has-zero-probability')
+                            break
             if case['errors'] == 'all':
                 ex['normalisation_sums'] += 1
                 tot = math.fsum(total)
@@ -570,6 +645,45 @@ def _eval_errors(case):
                                        'noise_deformation': d, 'direction': list(r), 'p': p,
                                        'error': _pstr(sigs[k]), 'dtype': dt, 'reference_probability': total_ref[k],
                                        'error_probability': total[k]})
+    ex.update(rec.counts)
+    res['extra'] = ex
+    return res
+
+
+# ----------------------------------------------------------------------------- part sum8
+
+def _eval_sum(case):
+    code = F.get_class(case['cls'])(*case['size'])
+    n = code.n
+    d = case.get('deformation')
+    rec = _Rec(case, n)
+    res = {'evals': 0, 'nontrivial': 0, 'violations': rec.v, 'outcomes': [], 'samples': []}
+    ex = {'normalisation_sums': 0, 'errors_summed': 0}
+    S = np.indices((4,) * n).reshape(n, -1).T                   # all 4^n Pauli index strings
+    V = np.hstack([(S == 1) | (S == 2), (S == 2) | (S == 3)]).astype(np.uint8)
+    for dr in case['dirs']:
+        r = _rvec(dr)
+        em = _model(case, r)
+        for p in case['ps']:
+            with np.errstate(divide='ignore', invalid='ignore'):
+                vals = [float(em.error_probability(v, code, p)) for v in V]
+            res['evals'] += len(vals)
+            ex['errors_summed'] += len(vals)
+            ex['normalisation_sums'] += 1
+            res['nontrivial'] += sum(1 for x in vals if x > 0) - 1
+            tot = math.fsum(vals)
+            rec.channel_y = True
+            if not abs(tot - 1.0) <= TOL_SUM or min(vals) < 0:
+                rec.add('not-normalised', True, dr[1] > 0,
+                        {'direction': list(r), 'p': p, 'sum_over_all_errors': tot, 'errors': len(vals),
+                         'min': min(vals), 'P_identity': vals[0]})
+            res['outcomes'].append('sum8|n%d|%s|sum%.6f|pos%d' % (n, d[0] if d else '-', tot,
+                                                                   sum(1 for x in vals if x > 0)))
+            if len(res['samples']) < 1:
+                res['samples'].append({'config': F.cfg_label({'cls': case['cls'], 'size': case['size'],
+                                                              'deformation': None}),
+                                       'noise_deformation': d, 'direction': list(r), 'p': p,
+                                       'errors_summed': len(vals), 'sum': tot})
     ex.update(rec.counts)
     res['extra'] = ex
     return res
@@ -908,4 +1022,6 @@ def eval_case(case):
         return _eval_metropolis(case)
     if case['part'] == 'large-n':
         return _eval_large_n(case)
+    if case['part'] == 'sum8':
+        return _eval_sum(case)
     return _eval_errors(case)
